@@ -1,11 +1,11 @@
 package harness
 
 import (
-	"os"
 	"encoding/hex"
 	"encoding/json"
 	"fmt"
 	"math/rand/v2"
+	"os"
 	"strings"
 
 	"verifsim/model"
